@@ -70,11 +70,13 @@ func cmdVerify(args []string) {
 	verbose := fs.Bool("v", false, "list every obligation")
 	dump := fs.String("dump", "", "dump the full VC of matching units into this directory")
 	showModel := fs.String("showmodel", "", "regexp: print matching scalar constants of counterexample models")
+	seedFlag := fs.Int("seed", 0, "solver random seed (as VERIF_SEED does for check)")
 	doReplay := fs.Bool("replay", false, "try to replay counterexamples of failing obligations on the real code")
 	split := fs.Bool("split", false, "on failure, try each conjunct of the goal separately (diagnostics)")
 	var subs multiFlag
 	fs.Var(&subs, "sub", "in-memory source rewrite FILE:::OLD:::NEW (relative to /repo), repeatable")
 	fs.Parse(args)
+	solverSeed = *seedFlag
 	t0 := time.Now()
 	overlay, oerr := buildOverlay(repoDir(), subs)
 	if oerr != nil {
